@@ -147,41 +147,45 @@ def forward (s : St) (e : PitEntry) (i : Interest) : St × List Send :=
     let outs' := targets.foldl (fun outs nh => upsertOut outs nh.1 i.nonce now (now + i.life) i.name) e2.outs
     ({ s with pit := setEntry s.pit { e2 with outs := outs' } }, targets.map (fun nh => Send.interest nh.1 i.name))
 
+/-- `processIncomingInterest` from `InsertInRecord` on (after the duplicate-nonce test), for the PIT
+    entry `e` of the Interest -/
+def interestTail (ord : List Name → List Name) (s1 : St) (e : PitEntry) (i : Interest) : St × List Send :=
+  let now := s1.now
+  -- InsertInRecord
+  let prev := e.ins.find? (fun r => r.face == i.face)
+  let rec' : Rec := ⟨i.face, i.nonce, now, now + i.life, i.name⟩
+  let ins' := match prev with
+    | some _ => e.ins.map (fun r => if r.face = i.face then rec' else r)
+    | none => e.ins ++ [rec']
+  let e1 := { e with ins := ins', horizon := max e.horizon (now + i.life) }
+  match prev with
+  | none =>
+    -- not already pending: Content Store
+    let r := C07.findData ord s1.cs i.name i.cbp i.mbf
+    match r.2 with
+    | some (q, _) =>
+      -- AfterContentStoreHit → SendData deletes the in-record; then UpdateExpirationTimer (F-08a fix)
+      let e2 := { e1 with ins := e1.ins.filter (fun r => r.face != i.face) }
+      let e3 := { e2 with sched := some (latest now e2) }
+      ({ s1 with cs := r.1, pit := setEntry s1.pit e3 }, [Send.data i.face q])
+    | none => forward { s1 with cs := r.1 } e1 i
+  | some r => forward (dnlInsert s1 i.name r.nonce) e1 i
+
 /-- `processIncomingInterest` -/
 def procInterest (ord : List Name → List Name) (s : St) (i : Interest) : St × List Send :=
-  let now := s.now
   if dnlHas s.dnl i.name i.nonce then (s, [])
   else
     -- InsertInterest
     let found := s.pit.find? (fun e => decide (e.name = i.name ∧ e.cbp = i.cbp ∧ e.mbf = i.mbf))
-    let e : PitEntry := match found with
-      | some e => e
-      | none => { tok := s.tokNext, name := i.name, cbp := i.cbp, mbf := i.mbf }
-    let s1 : St := match found with
-      | some _ => s
-      | none => { s with cs := { s.cs with nodes := fill s.cs.nodes i.name }, pit := s.pit ++ [e],
-                         nPit := s.nPit + 1, tokNext := s.tokNext + 1 }
-    if e.ins.any (fun r => r.face != i.face && r.nonce == i.nonce) then (s1, [])
-    else
-      -- InsertInRecord
-      let prev := e.ins.find? (fun r => r.face == i.face)
-      let rec' : Rec := ⟨i.face, i.nonce, now, now + i.life, i.name⟩
-      let ins' := match prev with
-        | some _ => e.ins.map (fun r => if r.face = i.face then rec' else r)
-        | none => e.ins ++ [rec']
-      let e1 := { e with ins := ins', horizon := max e.horizon (now + i.life) }
-      match prev with
-      | none =>
-        -- not already pending: Content Store
-        let (cs', ans) := C07.findData ord s1.cs i.name i.cbp i.mbf
-        match ans with
-        | some (q, _) =>
-          -- AfterContentStoreHit → SendData deletes the in-record; then UpdateExpirationTimer (F-08a fix)
-          let e2 := { e1 with ins := e1.ins.filter (fun r => r.face != i.face) }
-          let e3 := { e2 with sched := some (latest now e2) }
-          ({ s1 with cs := cs', pit := setEntry s1.pit e3 }, [Send.data i.face q])
-        | none => forward { s1 with cs := cs' } e1 i
-      | some r => forward (dnlInsert s1 i.name r.nonce) e1 i
+    match found with
+    | some e =>
+      if e.ins.any (fun r => r.face != i.face && r.nonce == i.nonce) then (s, [])
+      else interestTail ord s e i
+    | none =>
+      let e : PitEntry := { tok := s.tokNext, name := i.name, cbp := i.cbp, mbf := i.mbf }
+      interestTail ord
+        { s with cs := { s.cs with nodes := fill s.cs.nodes i.name }, pit := s.pit ++ [e],
+                 nPit := s.nPit + 1, tokNext := s.tokNext + 1 } e i
 
 structure DataPkt where
   face : Nat
@@ -195,28 +199,34 @@ def prefixMatch (pit : List PitEntry) (n : Name) : List PitEntry :=
   (List.range (n.length + 1)).reverse.flatMap fun k =>
     pit.filter (fun e => decide (e.name = n.take k) && (e.cbp || k == n.length))
 
+/-- the PIT entries a Data packet satisfies: by token when it carries one, else by name -/
+def dataMatches (s1 : St) (d : DataPkt) : List PitEntry :=
+  match d.tok with
+  | some (some k) => s1.pit.filter (fun e => e.tok == k)
+  | some none => []
+  | none => prefixMatch s1.pit d.name
+
+/-- `SetExpirationTimerToNow` + `SetSatisfied` + `ClearInRecords` + `ClearOutRecords` on the entry
+    with the token of `e` -/
+def satisfy (s : St) (e : PitEntry) : St :=
+  let cur := (getEntry s.pit e.tok).getD e
+  { s with pit := setEntry s.pit { cur with ins := [], outs := [], sched := some s.now, satisfied := true } }
+
 /-- `processIncomingData` -/
 def procData (s : St) (d : DataPkt) : St × List Send :=
-  let now := s.now
   let s1 := { s with cs := C07.insertData (pitAt s.pit) s.cs d.name d.wire d.fresh }
-  let ms : List PitEntry := match d.tok with
-    | some (some k) => s1.pit.filter (fun e => e.tok == k)
-    | some none => []
-    | none => prefixMatch s1.pit d.name
-  match ms with
+  match dataMatches s1 d with
   | [] => (s1, [])
   | [e] =>
     let s2 := e.outs.foldl (fun s r => dnlInsert s d.name r.nonce) s1
-    ({ s2 with pit := setEntry s2.pit { e with ins := [], outs := [], sched := some now, satisfied := true } },
-     e.ins.map (fun r => Send.data r.face d.name))
-  | e0 :: _ =>
-    ms.foldl (fun (acc : St × List Send) e =>
+    (satisfy s2 e, e.ins.map (fun r => Send.data r.face d.name))
+  | e0 :: rest =>
+    (e0 :: rest).foldl (fun (acc : St × List Send) e =>
       let s := acc.1
       let first := (getEntry s.pit e0.tok).getD e0
       let s2 := first.outs.foldl (fun s r => dnlInsert s d.name r.nonce) s
       let cur := (getEntry s2.pit e.tok).getD e
-      ({ s2 with pit := setEntry s2.pit { cur with ins := [], outs := [], sched := some now, satisfied := true } },
-       acc.2 ++ ((cur.ins.filter (fun r => r.face != d.face)).map (fun r => Send.data r.face d.name))))
+      (satisfy s2 e, acc.2 ++ ((cur.ins.filter (fun r => r.face != d.face)).map (fun r => Send.data r.face d.name))))
       (s1, [])
 
 /-- `RemoveInterest`: the last entry of the node takes the place of the removed one -/
@@ -270,5 +280,23 @@ def advanceTo (tie : Nat → Bool) : Nat → St → Nat → St
     else setNow s target
 
 def setCap (s : St) (k : Nat) : St := { s with cs := C07.setCap s.cs k }
+
+/-- the events of a forwarding thread: a packet arrives, management changes the capacity, or `d`
+    nanoseconds pass (`tie` resolves simultaneous timers, `fuel` bounds the timer events) -/
+inductive Op where
+  | interest (ord : List Name → List Name) (i : Interest)
+  | data (d : DataPkt)
+  | cap (k : Nat)
+  | adv (tie : Nat → Bool) (fuel : Nat) (d : Nat)
+
+def step (s : St) : Op → St
+  | .interest ord i => (procInterest ord s i).1
+  | .data d => (procData s d).1
+  | .cap k => setCap s k
+  | .adv tie fuel d => advanceTo tie fuel s (s.now + d)
+
+def run (s : St) : List Op → St
+  | [] => s
+  | op :: ops => run (step s op) ops
 
 end Ndn.C08
